@@ -141,6 +141,13 @@ func unmarshalList(buf []byte, ety cty.Type, path cty.Path) (cty.Value, error) {
 		return cty.ListValEmpty(ety), nil
 	}
 
+	// The elements can have inconsistent types only when the element type
+	// constraint contains cty.DynamicPseudoType, in which case each element
+	// was typed by the input. ListVal would panic, so we must check first.
+	if !cty.CanListVal(vals) {
+		return cty.NilVal, path.NewErrorf("all list elements must have the same type")
+	}
+
 	return cty.ListVal(vals), nil
 }
 
@@ -180,6 +187,13 @@ func unmarshalSet(buf []byte, ety cty.Type, path cty.Path) (cty.Value, error) {
 
 	if len(vals) == 0 {
 		return cty.SetValEmpty(ety), nil
+	}
+
+	// The elements can have inconsistent types only when the element type
+	// constraint contains cty.DynamicPseudoType, in which case each element
+	// was typed by the input. SetVal would panic, so we must check first.
+	if !cty.CanSetVal(vals) {
+		return cty.NilVal, path.NewErrorf("all set elements must have the same type")
 	}
 
 	return cty.SetVal(vals), nil
@@ -232,6 +246,13 @@ func unmarshalMap(buf []byte, ety cty.Type, path cty.Path) (cty.Value, error) {
 
 	if len(vals) == 0 {
 		return cty.MapValEmpty(ety), nil
+	}
+
+	// The elements can have inconsistent types only when the element type
+	// constraint contains cty.DynamicPseudoType, in which case each element
+	// was typed by the input. MapVal would panic, so we must check first.
+	if !cty.CanMapVal(vals) {
+		return cty.NilVal, path.NewErrorf("all map elements must have the same type")
 	}
 
 	return cty.MapVal(vals), nil
